@@ -276,7 +276,8 @@ def gen_plan(rng, tier, index, config=None):
             steps.append({"op": "permute", "passes": passes, "perm": perm})
     steps.append({"op": "validate", "copy": "c0", "how": "each"})
     # scripted scenarios that put the shared transaction into the in-flight states random histories rarely reach
-    scen = r.weighted([(None, 76), ("stale_front", 9), ("commit_sweep", 9), ("short_sig", 6)]) if config is None else None
+    scen = r.weighted([(None, 66), ("stale_front", 8), ("commit_sweep", 9), ("short_sig", 6), ("sighash_churn", 6),
+                       ("kc_lock_cycle", 5 if hd else 0)]) if config is None else None
     ms = [j for j, inp in enumerate(inputs) if "multisig" in inp["kind"] and inp["m"] >= 2 and len(inp["keys"]) <= 6]
     if scen == "stale_front" and ms and outputs:
         # a later-listed key signs without committing to the outputs, an earlier-listed key signs ALL, an output changes
@@ -307,7 +308,35 @@ def gen_plan(rng, tier, index, config=None):
                           "bytes": r.bytes(32).hex(), "val": r.pick([1, -1, 1000])})
             steps.append({"op": "validate", "copy": "c0", "how": vhow})
             steps.append({"op": "revert", "copy": "c0"})
+            if r.chance(0.7):
+                steps.append({"op": "validate", "copy": "c0", "how": vhow})   # (back in the signed state: valid again)
         steps.append({"op": "validate", "copy": "c0", "how": vhow})
+    elif scen == "sighash_churn":
+        # one checker object kept while outputs come and go and other fields change, digests asked in between
+        steps = [steps[0]]
+        for _ in range(r.between(5, 12)):
+            kind = r.weighted([("out_add", 3), ("out_remove", 3), ("out_value", 2), ("out_script", 1), ("sequence", 1), ("outpoint", 1),
+                               ("out_swap", 1)])
+            steps.append({"op": "tamper", "copy": "c0", "kind": kind, "a": r.bits(16), "b": r.bits(16), "bit": r.below(8),
+                          "bytes": r.bytes(32).hex(), "val": r.pick([1, -1, 1000])})
+            if r.chance(0.2):
+                steps.append({"op": "revert", "copy": "c0"})
+            steps.append({"op": "sighash", "copy": "c0", "idx": r.below(nin + 1), "script": r.pick(["puzzle", "puzzle", "codesep"]),
+                          "seed": r.bits(32), "all256": False, "ht": r.pick([1, 2, 3, 3, 0x81, 0x83, 0x43, 0xC3]), "checker": "reuse", "len": 0})
+    elif scen == "kc_lock_cycle" and hd:
+        # one long-lived keychain of hierarchical keys: used, locked (secrets cleared), unlocked again, used again
+        hk = [k for k in allkeys if keys[k].get("path")]
+        some = [k for k in hk if r.chance(0.7)] or hk[:1]
+        steps = [steps[0],
+                 {"op": "sign", "copy": "c0", "keys": some, "supply": "keychain_hd", "hash_type": None, "inputs": None, "reuse_keychain": True},
+                 {"op": "validate", "copy": "c0", "how": "each"},
+                 {"op": "tamper", "copy": "c0", "kind": r.pick(["locktime", "out_value", "version"]), "a": r.bits(16), "b": r.bits(16),
+                  "bit": r.below(8), "bytes": r.bytes(32).hex(), "val": 1},
+                 {"op": "sign", "copy": "c0", "keys": [], "supply": "keychain_hd", "hash_type": None, "inputs": None, "reuse_keychain": True,
+                  "clear_secrets": True},
+                 {"op": "sign", "copy": "c0", "keys": r.pick([some, hk]), "supply": "keychain_hd", "hash_type": None, "inputs": None,
+                  "reuse_keychain": True},
+                 {"op": "validate", "copy": "c0", "how": "each"}]
     elif scen == "short_sig" and hd is None:
         # one key at a time over a signature of unusual length: the planner grinds an output amount until the model's
         # (deterministic, low-S) signature by the first cosigner has a 31-byte r or s, i.e. DER + hash type <= 70 bytes
